@@ -204,6 +204,11 @@ func (p *provRunner) Do(line string) {
 		// initial provider consensus set as InitGenesis would compute it
 		_ = w.atomically(func(ctx sdk.Context) error { _, e := w.pk.ProviderValidatorUpdates(ctx); return e })
 		w.pk.InitializeSlashMeter(w.ctx)
+		{
+			pp := w.pk.GetParams(w.ctx)
+			fr := math.LegacyMustNewDecFromStr(pp.SlashMeterReplenishFraction)
+			p.t.obs("env", "fracscaled", fr.BigInt().String(), "period", int64(pp.SlashMeterReplenishPeriod))
+		}
 		if op.has("withkeys") {
 			p.withKeys = true
 		}
@@ -423,6 +428,16 @@ func (p *provRunner) Do(line string) {
 			return e
 		})
 		extra = append(extra, "valupd", w.pool.fmtUpdates(ups))
+		// the staking views the provider keeper exposes to governance / mint (C15)
+		var it []string
+		_ = w.pk.IterateBondedValidatorsByPower(w.ctx, func(_ int64, v stakingtypes.ValidatorI) bool {
+			it = append(it, fmt.Sprint(w.pool.byOper[v.GetOperator()]))
+			return false
+		})
+		tot, _ := w.pk.TotalBondedTokens(w.ctx)
+		ratio, _ := w.pk.BondedRatio(w.ctx)
+		sup, _ := w.stk.StakingTokenSupply(w.ctx)
+		extra = append(extra, "viter", strings.Join(it, ","), "vtotal", tot.String(), "vratio", ratio.String(), "supply", sup.String())
 	case "chantry", "chaninit":
 		err = p.doChanOpen(op, &extra)
 	case "chanconfirm":
@@ -640,7 +655,11 @@ func (p *provRunner) snapshotConsumer(ctx sdk.Context, id string) map[string]str
 	}
 	var pend []string
 	for _, pk := range k.GetPendingVSCPackets(ctx, id) {
-		pend = append(pend, fmt.Sprintf("%d/%s", pk.ValsetUpdateId, strings.ReplaceAll(p.w.pool.fmtUpdates(pk.ValidatorUpdates), ",", "+")))
+		pacc := make([]string, len(pk.SlashAcks))
+		for i, a := range pk.SlashAcks {
+			pacc[i] = p.ackKey(a)
+		}
+		pend = append(pend, fmt.Sprintf("%d/%s/%s", pk.ValsetUpdateId, strings.ReplaceAll(p.w.pool.fmtUpdates(pk.ValidatorUpdates), ",", "+"), strings.Join(pacc, "+")))
 	}
 	m["pend"] = strings.Join(pend, ";")
 	var acks []string
